@@ -97,17 +97,54 @@ func TestC10(t *testing.T) {
 		NCases: func(tier string) int {
 			_, v, s, o := c10Dims(tier)
 			if tier == "thorough" {
-				return v*s*o + 254*(1+2*6)*o
+				return v*s*o + 254*(1+2*6)*o + c10TransportErrCases
 			}
-			return v * o * s
+			return v*o*s + c10TransportErrCases
 		},
 		MinEvals: 100,
 		Run:      runC10,
 	})
 }
 
+// c10TransportErrCases: one transport call of the handshake fails once with an
+// error (nothing is lost, the transport works afterwards): the k-th read or
+// write (k in 1..4) of the server or of the client x 3 start orders x N in
+// {1,20,254}.
+const c10TransportErrCases = 4 * 2 * 2 * 3 * 3
+
+type c10TErr struct {
+	on   bool
+	pos  int  // 1-based call number
+	read bool // Recv (true) or Send
+	cli  bool // the client's call (true) or the server's
+}
+
+func (e c10TErr) String() string {
+	if !e.on {
+		return "none"
+	}
+	op, side := "write", "server"
+	if e.read {
+		op = "read"
+	}
+	if e.cli {
+		side = "client"
+	}
+	return fmt.Sprintf("%s's transport %s #%d fails once", side, op, e.pos)
+}
+
 func runC10(c *mon.Case) {
 	k, nv, ns, no := c10Dims(c.Tier)
+	enum := nv * ns * no
+	if c.Tier == "thorough" {
+		enum += 254 * (1 + 2*6) * no
+	}
+	if c.Idx >= enum {
+		j := c.Idx - enum
+		te := c10TErr{on: true, pos: j%4 + 1, read: (j/4)%2 == 0, cli: (j/8)%2 == 1}
+		runC10Case(c, k, make([]int, 2*k), (j/16)%3, 0, []uint8{1, 20, 254}[(j/48)%3], te)
+		return
+	}
 	var (
 		vec   []int
 		order int
@@ -148,10 +185,10 @@ func runC10(c *mon.Case) {
 		vec = decode(v)
 		n = []uint8{1, 20, 254}[(v+stale+order)%3]
 	}
-	runC10Case(c, k, vec, order, stale, n)
+	runC10Case(c, k, vec, order, stale, n, c10TErr{})
 }
 
-func runC10Case(c *mon.Case, k int, vec []int, order, stale int, n uint8) {
+func runC10Case(c *mon.Case, k int, vec []int, order, stale int, n uint8, te c10TErr) {
 	hs := 2 * time.Second
 	conf := eng.GBNConf{N: n, HSTimeout: hs, PingC: 7 * time.Second, PongC: 3 * time.Second, PingS: 5 * time.Second, PongS: 3 * time.Second, Lat: 5 * time.Millisecond}
 	// a third of the cases run over links whose calls take 1 ns .. 1 µs, which
@@ -160,9 +197,9 @@ func runC10Case(c *mon.Case, k int, vec []int, order, stale int, n uint8) {
 		conf.JitterMax = []time.Duration{time.Nanosecond, time.Microsecond}[(c.Idx/15)%2]
 		conf.JitterSeed = int64(c.Idx)*7919 + 1
 	}
-	key := fmt.Sprintf("v=%v|o=%d|st=%d|N=%d", vec, order, stale, n)
-	rep := map[string]any{"vector_c2s_then_s2c": vec, "order": []string{"client first", "server first", "same instant"}[order], "stale": c10Stale[stale], "N": n, "conf": conf.String()}
-	nontrivial := stale != 0
+	key := fmt.Sprintf("v=%v|o=%d|st=%d|N=%d|te=%s", vec, order, stale, n, te)
+	rep := map[string]any{"transport_error": te.String(), "vector_c2s_then_s2c": vec, "order": []string{"client first", "server first", "same instant"}[order], "stale": c10Stale[stale], "N": n, "conf": conf.String()}
+	nontrivial := stale != 0 || te.on
 	for _, d := range vec {
 		if d != dDeliver {
 			nontrivial = true
@@ -199,6 +236,19 @@ func runC10Case(c *mon.Case, k int, vec []int, order, stale int, n uint8) {
 		}
 		p.C2S.SetDecider(mkDecider(vec[:k]))
 		p.S2C.SetDecider(mkDecider(vec[k:]))
+		if te.on {
+			terr := fmt.Errorf("transport: transient %s failure (injected)", map[bool]string{true: "read", false: "write"}[te.read])
+			switch {
+			case te.read && te.cli:
+				p.S2C.FailRecvsAfter(te.pos-1, 1, terr)
+			case te.read:
+				p.C2S.FailRecvsAfter(te.pos-1, 1, terr)
+			case te.cli:
+				p.C2S.FailSendsAfter(te.pos-1, 1, terr)
+			default:
+				p.S2C.FailSendsAfter(te.pos-1, 1, terr)
+			}
+		}
 		// SYNs delivered to the server side of the link
 		var mu sync.Mutex
 		synsSeen := map[uint8]bool{}
@@ -220,6 +270,10 @@ func runC10Case(c *mon.Case, k int, vec []int, order, stale int, n uint8) {
 			defer wg.Done()
 			for ctx.Err() == nil {
 				g, err := gbn.NewServerConn(ctx, p.S2C.Send, p.C2S.Recv, conf.ServerOpts()...)
+				if err == nil && g == nil {
+					viol("constructor-returned-nothing", "NewServerConn returned neither a connection nor an error")
+					err = fmt.Errorf("no connection")
+				}
 				if err != nil {
 					srvErrs.Add(1)
 					select {
@@ -277,6 +331,10 @@ func runC10Case(c *mon.Case, k int, vec []int, order, stale int, n uint8) {
 					}
 				}
 				g, err := gbn.NewClientConn(ctx, n, p.C2S.Send, p.S2C.Recv, conf.ClientOpts()...)
+				if err == nil && g == nil {
+					viol("constructor-returned-nothing", "NewClientConn returned neither a connection nor an error: the side that cannot proceed reports no error")
+					err = fmt.Errorf("no connection")
+				}
 				if err != nil {
 					cliErrs.Add(1)
 					select {
